@@ -214,6 +214,15 @@ func (g *cgen) generate() *ConcProgram {
 			for j := 0; j < nops; j++ {
 				ws("\t\t%s\n", g.op(independent, id, keyBase))
 			}
+			if nsec == 2 && k == 0 && g.chance("holdlong", 60) {
+				// hold the first of two back-to-back sections for 2 ms: a goroutine that has waited
+				// longer than 1 ms is handed the mutex directly on Unlock (Go's starvation mode), so
+				// the schedule "another thread between the two sections" really occurs in Go runs
+				// (seeded change C03-9: adjacent Unlock/Lock pairs merged)
+				useMachine = true
+				g.feat("long-first-section-then-adjacent-relock")
+				ws("\t\tmachine.Sleep(2000000)\n")
+			}
 			ws("\t\tmu.Unlock()\n")
 		}
 		switch join {
